@@ -94,6 +94,13 @@ Definition f_abs_origin (st : root) (id : Z) : option (Z * Z) :=
   | None => None
   end.
 
+(* is_visible of the window and of everything above it, along ->parent as far as it goes *)
+Definition f_path_visible (st : root) (id : Z) : bool :=
+  match first_some (t_path id) (forest st) with
+  | Some p => forallb (fun w => w_vis (t_info w)) p
+  | None => true
+  end.
+
 (* reading a window: None = the window is freed (or unknown): a use after free *)
 Definition look (s : istate) (id : Z) : option wtree :=
   if mem id (i_freed s) then None else f_find (i_root s) id.
@@ -328,7 +335,11 @@ Definition term_mouse (cfg : defects) (claims : Z -> Z) (s : istate) (ty btn lin
     | Some src =>
       match (if mem src (i_freed s) then None else f_abs_origin (i_root s) src) with
       | None => i_faulty s
-      | Some o => fst (handle_mouse ifuel cfg claims s src ty' btn (line - fst o) (col - snd o))
+      | Some o =>
+        (* _handle_mouse_at: nothing to a window below a hidden one *)
+        if f_path_visible (i_root s) src
+        then fst (handle_mouse ifuel cfg claims s src ty' btn (line - fst o) (col - snd o))
+        else s
       end
     end in
   let s1 :=
